@@ -42,6 +42,12 @@ def s_pair(draw, min_n=1, max_n=8):
             "order": draw(s_order), "order_form": draw(st.sampled_from(["array", "list", "tuple"]))}
 
 
+@st.composite
+def s_related(draw):
+    g, h = draw(G.related_pair(4, 10))
+    return {"g": g, "h": h, "seed": draw(st.integers(0, 2 ** 32 - 1)), "order": draw(s_order), "order_form": draw(st.sampled_from(["array", "list", "tuple"]))}
+
+
 def call(ctx, case, g, h):
     np.random.seed(case["seed"])
     out = ctx.call(gromov_hausdorff, G.adjacency(g), G.adjacency(h), **order_arg(case))
@@ -192,10 +198,13 @@ def VALID_DEFAULT(case):
 
 
 CLAUSES = [
-    Clause("bracket", s_pair(1, 12), check_bracket, quick=12000, thorough=120000, fuzz=True, floors={"lb>trivial": 0.02},
+    Clause("bracket", s_pair(1, 12), check_bracket, quick=10000, thorough=120000, fuzz=True, floors={"lb>trivial": 0.02},
            rule="1..12 vertices each: lb <= exact mGH <= ub, both non-negative half-integers; non-trivial = both graphs >= 3 vertices, max "
                 "diameter >= 2 and exact distance > 0"),
-    Clause("isomorphic", s_iso(), check_iso, quick=6000, thorough=60000,
+    Clause("related_pairs", s_related(), check_bracket, quick=5000, thorough=80000,
+           rule="G (4..10 vertices) against a relabelled copy of G after 1..3 local edits (move / add / delete a leaf, add a chord, subdivide an "
+                "edge): similar graphs whose diameters differ by 0..2, true distance mostly 0.5..1.5; same oracle and non-triviality rule as bracket"),
+    Clause("isomorphic", s_iso(), check_iso, quick=4000, thorough=60000,
            rule="a graph against a relabelled copy of itself (1..14 vertices): lb == 0 for every labeling, RNG state and sample size; "
                 "non-trivial = >= 4 vertices, diameter >= 2, non-identity relabelling"),
     Clause("large_validity", s_pair(13, 18), check_large, quick=800, thorough=8000,
